@@ -5,13 +5,14 @@ package timed
 import "time"
 
 // VerifPollHook, if set, is called by Queue.Poll after it popped an element and created its timer, right before it
-// waits for the timer, the cancelation of the element or the shutdown. It receives the scheduled time of the
-// polled element. It exists only in builds with the tag "verif" and is used to replay schedules deterministically.
-var VerifPollHook func(scheduledTime time.Time)
+// waits for the timer, the cancelation of the element or the shutdown. It receives the queue (a *Queue[T]) and the
+// scheduled time of the polled element. It exists only in builds with the tag "verif" and is used to replay schedules
+// deterministically and to observe the order of polls.
+var VerifPollHook func(queue any, scheduledTime time.Time)
 
-func verifPollHook(scheduledTime time.Time) {
+func verifPollHook(queue any, scheduledTime time.Time) {
 	if hook := VerifPollHook; hook != nil {
-		hook(scheduledTime)
+		hook(queue, scheduledTime)
 	}
 }
 
